@@ -444,20 +444,23 @@ class bin_array(object):
     def build_cov_model(self, parent, name, exclude_bins : RangelistModel):
         ret = None
 
+        # Trim a copy: the specification may be shared with 
+        # coverpoints that exclude other values (or none)
+        ranges = self.ranges.clone()
         if len(exclude_bins.range_l) > 0:
-            self.ranges.intersect(exclude_bins)
+            ranges.intersect(exclude_bins)
         
         # First, need to determine how many total bins
         # Construct a range model
         if self.nbins == -1:
             # unlimited number of bins
-            if len(self.ranges.range_l) == 1:
-                r = self.ranges.range_l[0]
+            if len(ranges.range_l) == 1:
+                r = ranges.range_l[0]
                 ret = CoverpointBinArrayModel(name, r[0], r[1])
             else:
                 idx=0
                 ret = CoverpointBinCollectionModel(name)
-                for r in self.ranges.range_l:
+                for r in ranges.range_l:
                     if r[0] != r[1]:
                         b = ret.add_bin(CoverpointBinArrayModel(name, r[0], r[1]))
                         b.srcinfo_decl = self.srcinfo_decl
@@ -473,7 +476,7 @@ class bin_array(object):
                                         str(self.srcinfo_decl.lineno) + ")")
         else:
             ret = CoverpointBinCollectionModel.mk_collection(name, 
-                    self.ranges, self.nbins)
+                    ranges, self.nbins)
         
         ret.srcinfo_decl = self.srcinfo_decl
 
@@ -782,7 +785,7 @@ class coverpoint(object):
                         ib = self.ignore_bins[ib_name]
                         if isinstance(ib, bin):
                             for r in ib.range_l:
-                                if isinstance(r, (dict,tuple)):
+                                if isinstance(r, (list,tuple)):
                                     exclude_bins.add_range(r[0], r[1])
                                 else:
                                     exclude_bins.add_value(r)
@@ -797,7 +800,7 @@ class coverpoint(object):
                         ib = self.illegal_bins[ib_name]
                         if isinstance(ib, bin):
                             for r in ib.range_l:
-                                if isinstance(r, (dict,tuple)):
+                                if isinstance(r, (list,tuple)):
                                     exclude_bins.add_range(r[0], r[1])
                                 else:
                                     exclude_bins.add_value(r)
